@@ -10,7 +10,17 @@
             2 = bytes returned by Get (nil and empty both `b`; `-` when nothing is returned)
             3 = [ class of Get k for every k of the alphabet ]   4 = [ bytes of Get k ... ]
             5 = [ class of Has k for every k of the alphabet ]
-            6 = (op 8 only) [ k1 v1 k2 v2 ... ] sorted by key (then value) *)
+            6 = (op 8 only) [ k1 v1 k2 v2 ... ] sorted by key (then value)
+    C09 additions (codes 1-8 and labels 1-6 unchanged):
+            9 RangeKeys n   -- RangeKeys with a handler that answers `calls so far < n` (stops after n visits; n = 0
+                               and n = 1 both stop at the first pair).  7 = number of calls of the handler (unsharded
+                               persisters only: for the sharded one it depends on the order in which Go walks the map of
+                               shards); 8 = [ k1 v1 ... ] in the order of the calls (DB / SerialDB only: ascending keys)
+            10 Destroy      -- on the current object, open or not; the constructor may be called afterwards (op 7)
+            11 DestroyClosed -- refused with class 3 unless Close or Destroy was called on the current object
+            12 Judge n [ k1 v1 ... ] -- inserted by the Go driver after every op 9: the pairs the implementation's
+                               handler was given, in call order; 9 = 1 iff the model can explain them (some order of the
+                               shards / of the Go map), see [p_accept_stop] *)
 From Coq Require Import List NArith ZArith Bool.
 From Verif Require Import Base.Generic Base.BStr Persist.Batch Persist.LevelDb Persist.SerialDb Persist.MemDb
   Persist.ShardId Persist.ShardedDb.
@@ -40,6 +50,21 @@ Definition psort (l : list (key * bytes)) : list (key * bytes) := fold_right pin
 Definition g_pairs (l : list (key * bytes)) : garg :=
   GL (flat_map (fun p => [GB (fst p); GB (snd p)]) (psort l)).
 
+Definition g_pairs_in_order (l : list (key * bytes)) : garg :=
+  GL (flat_map (fun p => [GB (fst p); GB (snd p)]) l).
+Fixpoint kv_of_args (l : list garg) : list (key * bytes) :=
+  match l with
+  | GB k :: GB v :: r => (k, v) :: kv_of_args r
+  | _ => []
+  end.
+(** what op 9 prints beside the class: only what does not depend on an order the implementation chooses *)
+Definition stop_obs (n : nat) (p : pers) : list obs :=
+  match p with
+  | PBase (BMem _) => [(7, g_N (N.of_nat (length (p_range_stop n p))))]
+  | PBase _ => [(7, g_N (N.of_nat (length (p_range_stop n p)))); (8, g_pairs_in_order (p_range_stop n p))]
+  | PSharded _ => []
+  end.
+
 Definition probes (s : pstate) : list obs :=
   [ (3, GL (map (fun k => g_class (fst (p_get (ps_p s) k))) (ps_alpha s)));
     (4, GL (map (fun k => g_ret (p_get (ps_p s) k)) (ps_alpha s)));
@@ -65,6 +90,14 @@ Definition persist_step (s : pstate) (code : N) (args : list garg) : pstate * li
            then ({| ps_alpha := ps_alpha s; ps_closed := false; ps_p := p_reopen (ps_p s) |}, [(1, g_class ROk); (2, GNil)])
            else (s, [(1, g_class ROther); (2, GNil)])
     | 8 => (s, [(1, g_class ROk); (2, GNil); (6, g_pairs (p_range (ps_p s)))])
+    | 9 => (s, [(1, g_class ROk); (2, GNil)] ++ stop_obs (N.to_nat (arg_N (nth_arg args 0))) (ps_p s))
+    | 10 => let (p', r) := p_destroy (ps_p s) in
+            ({| ps_alpha := ps_alpha s; ps_closed := true; ps_p := p' |}, [(1, g_class r); (2, GNil)])
+    | 11 => if ps_closed s
+            then let (p', r) := p_destroy_closed (ps_p s) in (with_p s p', [(1, g_class r); (2, GNil)])
+            else (s, [(1, g_class ROther); (2, GNil)])
+    | 12 => (s, [(1, g_class ROk); (2, GNil);
+                 (9, g_bool (p_accept_stop (N.to_nat (arg_N (nth_arg args 0))) (ps_p s) (kv_of_args (arg_L (nth_arg args 1)))))])
     | _ => (s, [])
     end in
   (s', out ++ probes s').
